@@ -65,6 +65,12 @@ def run_ipm_tool(tool, data, a, b, fa, fb, scratch):
     src = os.path.join(scratch, 'in.ipm')
     with open(src, 'wb') as f:
         f.write(data)
+    if tool == 'mci_ipm_encode-cli' and zlib.crc32(data) % 3 == 0:
+        def run(path):
+            with quiet():
+                argv = [path, '--in-encoding', codecs_.spell(a, len(data)), '--out-encoding', codecs_.spell(b, len(data) + 1), '--in-format', fa, '--out-format', fb] + opts(data)
+                mci_ipm_encode.cli_run(**vars(mci_ipm_encode.cli_parser().parse_args(argv)))
+        return run_without_output_name(scratch, data, '.ipm', run)
     if tool == 'mci_ipm_encode-cli':
         dst = os.path.join(scratch, 'out.ipm')
         with quiet():
@@ -84,6 +90,27 @@ def run_ipm_tool(tool, data, a, b, fa, fb, scratch):
 def opts(data, flag='--debug'):
     """the tools' own diagnostic switches are part of how they are run: half of the invocations carry --debug / -d / -v"""
     return [flag] if zlib.crc32(data) % 2 else []
+
+
+def run_without_output_name(scratch, data, ext, run):
+    """the tool chooses the output name itself (no -o): in a directory that holds nothing but the input, exactly one new
+    file must appear - wherever the tool puts it - and the input must be left as it was"""
+    d = os.path.join(scratch, 'auto')
+    shutil.rmtree(d, ignore_errors=True)
+    os.makedirs(d)
+    # converting a converted file back is the usual second step: its name often already ends in .out
+    src = os.path.join(d, 'clearing' + ('.out' if zlib.crc32(data) % 2 else ext))
+    with open(src, 'wb') as f:
+        f.write(data)
+    run(src)
+    with open(src, 'rb') as f:
+        if f.read() != data:
+            raise RuntimeError(f'the tool, run without -o on {os.path.basename(src)}, changed its input file')
+    new = [n for n in os.listdir(d) if os.path.join(d, n) != src]
+    if len(new) != 1:
+        raise RuntimeError(f'the tool, run without -o on {os.path.basename(src)}, left {sorted(new)} beside its input (one output file expected)')
+    with open(os.path.join(d, new[0]), 'rb') as f:
+        return f.read()
 
 
 def looks_blocked(data):
@@ -137,6 +164,12 @@ def run_param_tool(tool, data, a, b, fa, fb, scratch):
     dst = os.path.join(scratch, 'out.par')
     with open(src, 'wb') as f:
         f.write(data)
+    if tool == 'mci_ipm_param_encode-cli' and zlib.crc32(data) % 3 == 0:
+        def run(path):
+            with quiet():
+                argv = [path, '--in-encoding', codecs_.spell(a, len(data)), '--out-encoding', codecs_.spell(b, len(data) + 1), '--in-format', fa, '--out-format', fb] + opts(data)
+                mci_ipm_param_encode.cli_run(**vars(mci_ipm_param_encode.cli_parser().parse_args(argv)))
+        return run_without_output_name(scratch, data, '.par', run)
     if tool == 'mci_ipm_param_encode-cli':
         with quiet():
             argv = [src, '-o', dst, '--in-encoding', codecs_.spell(a, len(data)), '--out-encoding', codecs_.spell(b, len(data) + 1), '--in-format', fa, '--out-format', fb] + opts(data)
